@@ -84,7 +84,7 @@ def design(ctx, names):
 def gen_cases(ctx, names, parts=None, nrandom=None):
     """(b) TLC enumerates the plan families and random nested plans."""
     if parts is None:
-        parts = ["matrix012", "values2", "values1", "refs", "computed", "eqcont", "scratch", "nestlit", "arith", "cmp", "retval", "var3", "bigint", "implied", "route", "mutate", "forms"]
+        parts = ["matrix012", "values2", "values1", "refs", "computed", "eqcont", "scratch", "nestlit", "arith", "cmp", "retval", "var3", "bigint", "implied", "route", "pathlike", "mutate", "forms"]
         if not ctx.quick:
             parts += ["matrix012b", "matrix3", "matrix4", "values3"]
     if nrandom is None:
@@ -216,7 +216,9 @@ def run_trace(ctx, cases):
     tp = os.path.join(ctx.scratch, "asm_trace_%d.ndjson" % ctx._asm_n)
     verif.write_ndjson(cp, cases)
     with open(cp, "rb") as fi, open(tp, "wb") as fo:
-        p = ctx.run([pb, "exec"], stdin=fi, stdout=fo, check=False, timeout=3000)
+        # a single case (confirmation / replay) gets a generous limit before it counts as a hang
+        p = ctx.run([pb, "exec"], stdin=fi, stdout=fo, check=False, timeout=3000,
+                    env={"VERIF_HANG_S": "60"} if len(cases) <= 3 else None)
     hang = None
     if p.returncode == 3:
         msg = p.stderr.decode(errors="replace")
@@ -231,8 +233,17 @@ def judge_once(ctx, cases):
     """Execute the cases on the real code, let TLC (TraceAsm) judge; returns (records, n)."""
     tp, hang = run_trace(ctx, cases)
     if hang is not None:
-        return [{"api": "asm.Plan.Execute", "kind": "hang", "locus": "hang/" + node_text(hang.get("plan", {}))[:60],
-                 "witness": node_text(hang.get("plan", {})), "case": hang, "depth": 0, "plan": hang.get("plan", {})}], 0
+        # a call that did not come back within the watchdog limit: Execute is not total (the verdict is kind hang, never infra;
+        # the stand-alone confirmation re-runs the single case with a 60 s limit)
+        hp = hang.get("plan", {})
+        fo = hp
+        if hp.get("t") == "call" and hp.get("fn") == "set" and len(hp.get("a", [])) == 2 and hp["a"][1].get("t") == "call":
+            fo = hp["a"][1]
+        elif hp.get("t") == "call" and hp.get("fn") == "asm" and len(hp.get("a", [])) == 3 and hp["a"][1].get("t") == "call":
+            fo = hp["a"][1]
+        case = {k: hang[k] for k in ("plan", "root", "root2", "bare") if k in hang}
+        return [{"api": "asm.Plan.Execute", "kind": "hang", "locus": "hang/%s" % fo.get("fn", "?"),
+                 "witness": _witness(hang), "case": case, "detail": {"watchdog": "no return within the limit"}, "depth": 0, "plan": hp}], 0
     res = ctx.validate("TraceAsm", tp, cfg=TRACE_CFG, chunk=3100 if ctx.quick else 6000, timeout=1500)
     ctx.cov["evaluations"] += res["n"] * 11
     cells = getattr(ctx, "_cells", set())
